@@ -673,6 +673,47 @@ def _paths(stmts: List[ast.stmt], limit: int = 64) -> List[Tuple[List[str], List
     return [(c, a) for c, a, alive in paths if alive]
 
 
+@rule("D4b", "DERIVED-HEIGHT: MAX derives its height as floor(8 * length / width) and refuses a length that is not a whole number of rows", ["C18"], floor=2)
+def d4b(ctx: Ctx):
+    D = decoderfacts(ctx)
+    fn = D.fn("maxtoppm", "convert")
+    rel = DECODERS["maxtoppm"]
+    # size = hi * 256 + lo from header bytes 1 and 2
+    sz = next((n for n in ast.walk(fn) if isinstance(n, ast.Assign) and isinstance(n.targets[0], ast.Name) and n.targets[0].id == "size"), None)
+    ctx.need(sz is not None, "maxtoppm.size", "length field assignment not found")
+    env = {}
+    p = poly_eval(sz.value, env)
+    want = Poly.atom("<file byte>") * Poly.const(256) + Poly.atom("<file byte>")
+    src = unparse(sz.value).replace(" ", "")
+    oks = src in ("ord(head[1])*256+ord(head[2])", "ord(head[2])+ord(head[1])*256", "(ord(head[1])<<8)+ord(head[2])", "ord(head[1])<<8|ord(head[2])")
+    ctx.ob("maxtoppm:length-field", oks, "" if oks else f"the data length is read as `{unparse(sz.value)}`, not big-endian from header bytes 1 and 2", file=rel, line=sz.lineno)
+    rw = next((n for n in ast.walk(fn) if isinstance(n, ast.Assign) and isinstance(n.targets[0], ast.Name) and n.targets[0].id == "rows" and "size" in names_loaded(n.value)), None)
+    ctx.need(rw is not None, "maxtoppm.rows", "derivation of rows from the length field not found")
+    v = rw.value
+    ok = False
+    if isinstance(v, ast.BinOp) and isinstance(v.op, ast.FloorDiv):
+        num = poly_eval(v.left, {})
+        den = poly_eval(v.right, {})
+        ok = num == Poly.atom("size") * Poly.const(8) and den == Poly.atom("cols")
+    ctx.ob(
+        "maxtoppm:rows=8*size//cols",
+        ok,
+        "" if ok else f"rows are derived as `{unparse(v)}`; the file holds `size` bytes of `cols/8` bytes per row, so the height is floor(8*size/cols): heights that are not a multiple of 8 come out wrong (and the consistency test then rejects a good file)",
+        file=rel,
+        line=rw.lineno,
+        witness="" if ok else "a 256x100 MAX file (3200 data bytes)",
+    )
+    chk = next((n for n in ast.walk(fn) if isinstance(n, ast.If) and "size" in names_loaded(n.test) and "rows" in names_loaded(n.test)), None)
+    okc = chk is not None and unparse(chk.test).replace(" ", "") in ("cols*rows//8!=size", "rows*cols//8!=size", "size!=cols*rows//8")
+    ctx.ob("maxtoppm:length-consistency", okc, "" if okc else "the test that the derived height reproduces the length field is gone or changed", file=rel, line=chk.lineno if chk else fn.lineno)
+    # newsroom header: cols = byte0 * 8, rows = byte1
+    nr = [n for n in ast.walk(fn) if isinstance(n, ast.If) and unparse(n.test) == "newsroom"]
+    ctx.need(nr, "maxtoppm.newsroom", "newsroom branch not found")
+    srcn = unparse(nr[0]).replace(" ", "")
+    okn = "cols=ord(head[0])*8" in srcn and "rows=ord(head[1])" in srcn
+    ctx.ob("maxtoppm:newsroom-header", okn, "" if okn else "Newsroom header is no longer read as width/8 and height bytes", file=rel, line=nr[0].lineno)
+
+
 # ---------------------------------------------------------------------------
 # D5 READ-DISCIPLINE
 
@@ -809,6 +850,18 @@ def d6(ctx: Ctx):
                         for i_ in ast.walk(wl)
                     )
                     ok_b = guard is not None
+                    if guard is not None:
+                        # the counter counts down by one from a positive number: the guard must fire when it reaches 0
+                        fires_at_zero = _test_at(guard.test, ctr, 0)
+                        fires_at_one = _test_at(guard.test, ctr, 1)
+                        okp = fires_at_zero is True and fires_at_one is False
+                        ctx.ob(
+                            f"{dec}.repeat-guard:exact",
+                            okp,
+                            "" if okp else f"the guard `if {unparse(guard.test)}: break` does not fire exactly when `{ctr}` reaches 0 (at 0: {fires_at_zero}, at 1: {fires_at_one}): a run that crosses the end of the picture writes one byte more (or less) than the header announces",
+                            file=rel,
+                            line=guard.lineno,
+                        )
                     ctx.ob(
                         f"{dec}.repeat-guard",
                         ok_b,
@@ -849,6 +902,16 @@ def d6(ctx: Ctx):
                                 line=i_.lineno,
                             )
     ctx.need(found >= 2, "counters", f"only {found} remaining-sample counters found (expected RAT and MGE)")
+
+
+def _test_at(test: ast.AST, var: str, val: int) -> Optional[bool]:
+    if isinstance(test, ast.Compare) and len(test.ops) == 1 and isinstance(test.left, ast.Name) and test.left.id == var and isinstance(test.comparators[0], ast.Constant):
+        k = test.comparators[0].value
+        op = type(test.ops[0])
+        return {ast.Lt: val < k, ast.LtE: val <= k, ast.Gt: val > k, ast.GtE: val >= k, ast.Eq: val == k, ast.NotEq: val != k}.get(op)
+    if isinstance(test, ast.UnaryOp) and isinstance(test.op, ast.Not) and isinstance(test.operand, ast.Name) and test.operand.id == var:
+        return val == 0
+    return None
 
 
 def _decrement_target(st: ast.AST) -> Optional[str]:
